@@ -18,12 +18,12 @@
 #include "core/AsmContext.h"
 #include "core/UtilContext.h"
 #include "fileio/file.h"
-#if SCN == 21
+#if SCN >= 21
 #include <readline/readline.h>
 #include <readline/history.h>
 #endif
 
-extern "C" { unsigned g_pc; int g_pc_known; int g_reset_calls; int g_break_io_seen; unsigned g_load_addr; int g_loaded; int g_prompted; }
+extern "C" { int g_print8, g_print16, g_write16, g_other_cmd; char g_arg0, g_arg1; unsigned g_pc; int g_pc_known; int g_reset_calls; int g_break_io_seen; unsigned g_load_addr; int g_loaded; int g_prompted; }
 /* concrete command lines (symbolic argv words make CBMC's symbolic execution explore the whole command interpreter):
    SCN 1..6 end at the first prompt; SCN 11..16 end in an option whose value is missing */
 #if SCN == 1
@@ -50,8 +50,8 @@ static const char *const g_cmd[] = { "naken_util", "a.hex", "-address" };
 static const char *const g_cmd[] = { "naken_util", "-break_io" };
 #elif SCN == 16
 static const char *const g_cmd[] = { "naken_util", "a.hex", "-sim_serial", "1" };
-#elif SCN == 21
-/* the shipped configuration (-DREADLINE): one command, then end of input without `quit` */
+#elif SCN >= 21
+/* the shipped configuration (-DREADLINE): a session of one or two command lines, then end of input without `quit` */
 static const char *const g_cmd[] = { "naken_util", "a.hex" };
 #endif
 #if SCN >= 11 && SCN < 21
@@ -80,7 +80,7 @@ UtilContext::UtilContext() { simulate = g_sim; cpu_name = "msp430"; }
 UtilContext::~UtilContext() {}
 int UtilContext::is_supported_cpu(const char *name) { return name[0] == 'm' ? 1 : 0; }
 int UtilContext::set_cpu_by_name(const char *name) { return 0; }
-void UtilContext::disasm(const char *token) {}
+void UtilContext::disasm(const char *token) { g_other_cmd++; }
 void UtilContext::disasm(uint32_t start, uint32_t end) {}
 void UtilContext::sim_show_info() {}
 int UtilContext::sim_set_register(String &arg) { return 0; }
@@ -88,12 +88,12 @@ int UtilContext::sim_clear_flag(String &arg) { return 0; }
 int UtilContext::sim_set_speed(String &arg) { return 0; }
 int UtilContext::sim_stack_push(String &arg) { return 0; }
 int UtilContext::sim_set_breakpoint(String &arg) { return 0; }
-void UtilContext::print8(const char *token) {}
-void UtilContext::print16(const char *token) {}
-void UtilContext::print32(const char *token) {}
-void UtilContext::write8(const char *token) {}
-void UtilContext::write16(const char *token) {}
-void UtilContext::write32(const char *token) {}
+void UtilContext::print8(const char *token) { g_print8++; g_arg0 = token[0]; g_arg1 = token[1]; }
+void UtilContext::print16(const char *token) { g_print16++; }
+void UtilContext::print32(const char *token) { g_other_cmd++; }
+void UtilContext::write8(const char *token) { g_other_cmd++; }
+void UtilContext::write16(const char *token) { g_write16++; g_arg0 = token[0]; g_arg1 = token[1]; }
+void UtilContext::write32(const char *token) { g_other_cmd++; }
 const char *UtilContext::get_address(const char *token, uint32_t *address) { *address = 0; return 0; }
 bool UtilContext::get_range(const char *text, Range &range) { return false; }
 int Symbols::print(FILE *out) { return 0; }
@@ -113,11 +113,26 @@ uint8_t Memory::read8(uint32_t a) { return 0; }
 void Memory::write8(uint32_t a, uint8_t d) {}
 void tokens_close(AsmContext *) {}
 void tokens_reset(AsmContext *) {}
-#if SCN == 21
+#if SCN >= 21
 extern "C" { int g_rl_calls; rl_completion_func_t *rl_attempted_completion_function; int rl_attempted_completion_over; char *rl_line_buffer; }
-static char g_line1[16] = "registers";
-/* readline contract: the first call delivers one command line, every later call reports end of input (NULL) */
-extern "C" char *readline(const char *prompt) { g_rl_calls++; g_prompted = 1; return g_rl_calls == 1 ? g_line1 : (char *)0; }
+#if SCN == 21
+static char g_line1[24] = "registers"; static char g_line2[8] = "";
+#define NLINES 1
+#elif SCN == 22
+static char g_line1[24] = "print 0x10"; static char g_line2[8] = "quit";
+#define NLINES 2
+#elif SCN == 23
+static char g_line1[24] = "bogus 1 2"; static char g_line2[8] = "exit";
+#define NLINES 2
+#elif SCN == 24
+static char g_line1[24] = "write16 0x20 1 2"; static char g_line2[8] = "quit";
+#define NLINES 2
+#elif SCN == 25
+static char g_line1[24] = "print"; static char g_line2[8] = "quit";
+#define NLINES 2
+#endif
+/* readline contract: the session's lines in order, then end of input (NULL) for ever */
+extern "C" char *readline(const char *prompt) { g_rl_calls++; g_prompted = 1; return g_rl_calls == 1 ? g_line1 : (g_rl_calls == 2 && NLINES == 2) ? g_line2 : (char *)0; }
 extern "C" void add_history(const char *line) {}
 extern "C" char **rl_completion_matches(const char *text, rl_compentry_func_t *entry) { return 0; }
 #endif
@@ -145,10 +160,17 @@ extern "C" void h_utilmain()
   int argc = NWORDS;
   char *argv[8];
   for (int i = 0; i < 8; i++) argv[i] = (i < NWORDS) ? (char *)&g_cmd[i][0] : (char *)0;      /* argv[argc] == NULL */
-  g_pc = 0; g_pc_known = 0; g_reset_calls = 0; g_loaded = 0; g_prompted = 0;
+  g_pc = 0; g_pc_known = 0; g_reset_calls = 0; g_loaded = 0; g_prompted = 0; g_print8 = 0; g_print16 = 0; g_write16 = 0; g_other_cmd = 0; g_arg0 = 0; g_arg1 = 0;
   int r = naken_util_main(argc, argv);
-#if SCN == 21
-  OBL(g_rl_calls <= 3, "C17.cli: end of input ends the session (the last command is not repeated)");
+#if SCN >= 21
+  OBL(g_rl_calls <= NLINES + 1, "C17.cli: `quit`/`exit` or end of input ends the session (no command is read or repeated after it)");
+#if SCN == 22
+  OBL(g_print8 == 1 && g_arg0 == '0' && g_arg1 == 'x' && g_print16 + g_write16 + g_other_cmd == 0, "C17.cli: `print <range>` runs the byte dump once with its argument and nothing else");
+#elif SCN == 23 || SCN == 25
+  OBL(g_print8 + g_print16 + g_write16 + g_other_cmd == 0, "C17.cli: an unknown command, or a command without its required argument, is rejected without running anything");
+#elif SCN == 24
+  OBL(g_write16 == 1 && g_arg0 == '0' && g_arg1 == 'x' && g_print8 + g_print16 + g_other_cmd == 0, "C17.cli: `write16 <address> <values>` runs the 16-bit write once with its arguments and nothing else");
+#endif
   CANARY("h_utilmain end");
 #elif !defined(LASTOPT)
   OBL(g_prompted, "C19.cli: the command line is accepted and the first prompt is reached");
